@@ -1029,6 +1029,8 @@ package decimal128
 //@ ensures !special(d) && coef(d) == 0 ==> !special(r) && coef(r) == 0 && bexp(r) == 0 && sign(r) == sign(d)
 //@ ensures !special(d) && coef(d) != 0 && bexp(d) >= 6176 ==> r == d
 //@ ensures !special(d) && coef(d) != 0 && bexp(d) < 6176 ==> sign(r) == sign(d) && !special(r) && rs(VC, bexp(r)) == coef(r)
+//@ callarg Decimal.Ceil#1: arg_d == d && arg_dp == 0
+//@ ensures r == callres_Ceil_1
 //@ props C08 C19 C20
 
 //@ func Floor
@@ -1042,6 +1044,8 @@ package decimal128
 //@ ensures !special(d) && coef(d) == 0 ==> !special(r) && coef(r) == 0 && bexp(r) == 0 && sign(r) == sign(d)
 //@ ensures !special(d) && coef(d) != 0 && bexp(d) >= 6176 ==> r == d
 //@ ensures !special(d) && coef(d) != 0 && bexp(d) < 6176 ==> sign(r) == sign(d) && !special(r) && rs(VC, bexp(r)) == coef(r)
+//@ callarg Decimal.Floor#1: arg_d == d && arg_dp == 0
+//@ ensures r == callres_Floor_1
 //@ props C08 C19 C20
 
 //@ func Round
@@ -1056,6 +1060,8 @@ package decimal128
 //@ ensures !special(d) && coef(d) != 0 && bexp(d) >= 6176 ==> r == d
 //@ ensures !special(d) && coef(d) != 0 && bexp(d) < 6176 && rs(V, 6176) < 0.1 ==> !special(r) && coef(r) == 0 && bexp(r) == 0 && sign(r) == sign(d)
 //@ ensures !special(d) && coef(d) != 0 && bexp(d) < 6176 && rs(V, 6176) >= 0.1 ==> sign(r) == sign(d) && !special(r) && rs(VC, bexp(r)) == coef(r)
+//@ callarg Decimal.Round#1: arg_d == d && arg_dp == 0 && arg_mode == 1
+//@ ensures r == callres_Round_1
 //@ props C08 C19 C20
 
 //@ func Trunc
@@ -1070,6 +1076,8 @@ package decimal128
 //@ ensures !special(d) && coef(d) != 0 && bexp(d) >= 6176 ==> r == d
 //@ ensures !special(d) && coef(d) != 0 && bexp(d) < 6176 && rs(V, 6176) < 0.1 ==> !special(r) && coef(r) == 0 && bexp(r) == 0 && sign(r) == sign(d)
 //@ ensures !special(d) && coef(d) != 0 && bexp(d) < 6176 && rs(V, 6176) >= 0.1 ==> sign(r) == sign(d) && !special(r) && rs(VC, bexp(r)) == coef(r)
+//@ callarg Decimal.Round#1: arg_d == d && arg_dp == 0 && arg_mode == 2
+//@ ensures r == callres_Round_1
 //@ props C08 C19 C20
 
 // uint128.div: general divisor. The path o[1] != 0 estimates the quotient from the
